@@ -256,6 +256,27 @@ INSTANCE_STATE_ALLOWED = {
 }
 
 
+# container attributes created in __init__ today (all classes of the anchored modules); each is the object's working state by design:
+# parsers accumulate what they read, Molecule/System/ForceField are containers, AnnotateMutMod holds its requests and its per-request report
+INIT_CONTAINERS_ALLOWED = {
+    'vermouth/citation_parser.py': {'BibTexDirector': {'citations', 'known_entries'}},
+    'vermouth/ffinput.py': {'FFDirector': {'blocks', 'links', 'modifications', 'citations', 'header_actions'}},
+    'vermouth/file_writer.py': {'DeferredFileWriter': {'open_files'}},
+    'vermouth/forcefield.py': {'ForceField': {'blocks', 'links', 'modifications', 'renamed_residues', 'variables', 'citations'}},
+    'vermouth/ismags.py': {'ISMAGS': {'_sgn_partitions_', '_gn_partitions_', '_node_compat_', '_sge_partitions_', '_ge_partitions_', '_edge_compat_'}},
+    'vermouth/log_helpers.py': {'CountingHandler': {'counts'}},
+    'vermouth/molecule.py': {'Molecule': {'interactions', 'citations', 'log_entries'}, 'Block': {'_apply_to_all_interactions'}, 'Link': {'_apply_to_all_nodes'}},
+    'vermouth/parser_utils.py': {'SectionLineParser': {'macros', 'section'}},
+    'vermouth/system.py': {'System': {'molecules', 'gmx_topology_params', 'go_params', 'meta'}},
+    'vermouth/gmx/itp_read.py': {'ITPDirector': {'blocks', 'header_actions', 'current_atom_names'}},
+    'vermouth/gmx/rtp.py': {'_IterRTPSubsections': {'buffer'}, '_IterRTPSections': {'buffer'}},
+    'vermouth/pdb/pdb.py': {'PDBParser': {'molecules', '_conects', 'cryst'}},
+    'vermouth/processors/annotate_mut_mod.py': {'AnnotateMutMod': {'resspec_counts', 'modifications', 'mutations'}},
+    'vermouth/rcsu/go_pipeline.py': {'GoProcessorPipeline': {'kwargs'}},
+    'vermouth/rcsu/go_structure_bias.py': {'ComputeStructuralGoBias': {'__chain_id_to_resnode'}},
+}
+
+
 def _is_container(v):
     return isinstance(v, (ast.Dict, ast.List, ast.Set)) or (isinstance(v, ast.Call) and call_name(v) in flow.CONTAINER_CALLS | {'set', 'dict', 'list'})
 
@@ -272,6 +293,34 @@ def no_new_state(ck, rels, rule='STATE-no-memory'):
             for st in c.body:
                 if isinstance(st, ast.Assign) and isinstance(st.targets[0], ast.Name) and _is_container(st.value):
                     cands[cname + '.' + st.targets[0].id] = st
+        # a container an object creates for itself and then fills (or hands to a callee) after construction is memory across the calls made on that object
+        for cname, c in m.classes.items():
+            init = [it for it in c.body if isinstance(it, ast.FunctionDef) and it.name == '__init__']
+            if not init:
+                continue
+            made = {}
+            for st in ast.walk(init[0]):
+                if isinstance(st, ast.Assign) and isinstance(st.targets[0], ast.Attribute) and u(st.targets[0].value) == 'self' and _is_container(st.value):
+                    made[st.targets[0].attr] = st
+            for attr, st in made.items():
+                if attr in INIT_CONTAINERS_ALLOWED.get(rel, {}).get(cname, set()):
+                    continue
+                text = 'self.' + attr
+                used = []
+                for it in c.body:
+                    if not isinstance(it, ast.FunctionDef) or it.name == '__init__':
+                        continue
+                    for n in ast.walk(it):
+                        if isinstance(n, (ast.Subscript, ast.Attribute)) and isinstance(n.ctx, (ast.Store, ast.Del)) and u(n).startswith(text) and u(n) != text:
+                            used.append('{}: store `{}`'.format(it.name, u(n)[:40]))
+                        elif isinstance(n, ast.Call) and isinstance(n.func, ast.Attribute) and n.func.attr in flow.MUTATOR_METHODS and u(n.func.value).startswith(text):
+                            used.append('{}: `{}`'.format(it.name, u(n)[:40]))
+                        elif isinstance(n, ast.Call) and any(u(a) == text for a in list(n.args) + [k.value for k in n.keywords]):
+                            used.append('{}: handed to `{}`'.format(it.name, u(n.func)[:40]))
+                ninst += 1
+                ck.ob(rule, m.loc(st), not used, '{}.__init__ creates the container `{}`{}'.format(
+                    cname, text, '; it is only read afterwards' if not used else ' and it is filled / handed on after construction ({}): content survives from one call on the object to the next'.format('; '.join(used[:3]))),
+                    key='{}|init-container|{}|{}|{}'.format(rule, rel, cname, attr))
         for qual, fn in m.functions.items():
             # a memoising decorator is memory that survives between calls
             for dec in getattr(fn, 'decorator_list', []):
